@@ -1532,8 +1532,523 @@ Proof.
     rewrite (U3 j x Hj). rewrite (nth_set_nth i j true false) by lia.
     destruct (j =? i)%nat eqn:Eji.
     + apply Nat.eqb_eq in Eji. subst j. unfold acct at 2. fold i. rewrite N.eqb_refl.
-      rewrite (nth_default_irrel _ i false true) by lia. rewrite Hnd. unfold dcol. rewrite Has. lia.
+      rewrite (nth_default_irrel _ i false true) by lia. rewrite Hnd. unfold dcol. lia.
     + assert (Ne : N.eqb (acct st j) (nth i (s_accts st) 0) = false).
       { apply N.eqb_neq. intro X. apply Nat.eqb_neq in Eji. apply Eji. apply (acct_inj st j i So Hj Hlt X). }
       rewrite Ne. lia.
+Qed.
+
+Lemma zero_col_rows h i c : Forall (fun r => length r = c) h -> Forall (fun r => length r = c) (zero_col h i).
+Proof.
+  unfold zero_col. intro F. apply Forall_forall. intros r Hr. apply in_map_iff in Hr as [r0 [<- Hr0]].
+  rewrite set_nth_length. rewrite Forall_forall in F. apply F. exact Hr0.
+Qed.
+
+Lemma fund_inv_withdraw st L acc0 idx signer :
+  static_ok st -> fund_inv_at st L acc0 -> idx < 2 ->
+  fund_inv_at st (fst (step L (LWithdraw (s_root st) idx signer (acct st (N.to_nat idx))))) acc0.
+Proof.
+  intros So FI Hi. unfold step.
+  destruct (step_res L (LWithdraw (s_root st) idx signer (acct st (N.to_nat idx)))) as [[L' evs]|e] eqn:E; cbn [fst]; [|exact FI].
+  destruct (L_payout_withdraw _ _ _ _ _ _ _ E) as (f & Ef & Sf & _ & Hlt & Hwd & Hacc & Ef' & _ & Hd & _).
+  set (i := N.to_nat idx) in *. rewrite (so_parts _ So) in Hlt.
+  unfold fund_inv_at, rootid in *. rewrite Ef in FI. rewrite Ef'. destruct FI as (F1 & F2 & F3 & _ & FS).
+  destruct (FS Sf) as (Hc & Hp). destruct (fund_dims_facts _ F2) as (D1 & D2 & D3).
+  cbn [f_assets f_settled f_hold f_dep f_wd]. split; [exact F1|]. split.
+  { apply fund_dims_intro; [rewrite zero_col_length; exact D1|rewrite set_nth_length; exact D2|apply zero_col_rows; exact D3]. }
+  split; [exact F3|]. split; [discriminate|]. intros _. rewrite Hd. split; [exact Hc|].
+  unfold all_dep. cbn [f_dep]. intro Ad. destruct (Hp Ad) as (out & Ho & P). exists out. split; [exact Ho|].
+  intros j Hj. cbn [f_wd f_hold]. rewrite (nth_set_nth i j true true) by lia. rewrite col_zero_col.
+  rewrite (zeros_length (zero_col (f_hold f) i) (f_hold f)) by apply zero_col_length.
+  destruct (P j Hj) as (P1 & P2).
+  destruct (j =? i)%nat eqn:Eji.
+  - apply Nat.eqb_eq in Eji. subst j. split; [discriminate|]. intros _. split; [reflexivity|].
+    intro x. rewrite Hacc. cbn [fst snd]. rewrite N.eqb_refl. destruct (P1 Hwd) as (C1 & A1).
+    rewrite A1, C1, F1. unfold ocol. lia.
+  - assert (Ne : forall x, acc_get (l_acc L') (acct st j, x) = acc_get (l_acc L) (acct st j, x)).
+    { intro x. rewrite Hacc. cbn [fst snd].
+      assert (Ne : N.eqb (acct st j) (acct st i) = false).
+      { apply N.eqb_neq. intro X. apply Nat.eqb_neq in Eji. apply Eji. apply (acct_inj st j i So Hj Hlt X). }
+      rewrite Ne. lia. }
+    split.
+    + intro W. destruct (P1 W) as (C1 & A1). split; [exact C1|]. intro x. rewrite Ne. apply A1.
+    + intro W. destruct (P2 W) as (C1 & A1). split; [exact C1|]. intro x. rewrite Ne. apply A1.
+Qed.
+
+(* the step that concludes the ledger channel *)
+Lemma fund_inv_settle st L acc0 D' out clock' :
+  static_ok st -> fund_inv_at st L acc0 -> is_concluded (l_disp L) (rootid st) = false ->
+  is_concluded D' (rootid st) = true -> ledger_outcome D' (rootid st) = ROk out ->
+  map zsum out = map zsum (s_agree st) -> Forall (fun r => length r = 2%nat) out ->
+  length out = length (s_assets st) ->
+  fund_inv_at st (mkL clock' (l_acc L) (set_outcome (l_funds L) (rootid st) out) D') acc0.
+Proof.
+  intros So FI Nc Hc Ho Hz Hr Hl. unfold fund_inv_at in *. cbn [l_funds l_acc l_disp].
+  destruct (bfind (l_funds L) (rootid st)) as [f|] eqn:Ef.
+  2:{ rewrite (set_outcome_none _ _ _ Ef), Ef. exact FI. }
+  destruct FI as (F1 & F2 & F3 & FU & FS).
+  destruct (f_settled f) eqn:Sf.
+  { destruct (FS eq_refl) as (X & _). congruence. }
+  destruct (FU eq_refl) as (U1 & U2 & U3). destruct (fund_dims_facts _ F2) as (D1 & D2 & D3).
+  unfold set_outcome. rewrite Ef, Sf, bfind_bput_same. cbn [f_assets f_settled f_hold f_dep f_wd].
+  split; [exact F1|].
+  set (h := if fund_dims_ok f && outcome_fits f out then out else f_hold f).
+  assert (Hh : length h = length (f_assets f) /\ Forall (fun r => length r = length (f_dep f)) h).
+  { subst h. destruct (fund_dims_ok f && outcome_fits f out) eqn:Eb; [|auto].
+    rewrite F1, F3. auto. }
+  split; [apply fund_dims_intro; [apply Hh|exact D2|apply Hh]|]. split; [exact F3|]. split; [discriminate|].
+  intros _. split; [exact Hc|]. unfold all_dep. cbn [f_dep]. intro Ad. exists out. split; [exact Ho|].
+  (* exactly funded: the holdings are the agreement *)
+  assert (Hhold : f_hold f = s_agree st).
+  { apply matrix2_eq.
+    - rewrite D1, F1. symmetry. apply (so_agree_len _ So).
+    - rewrite <- F3. exact D3.
+    - apply (so_agree_rows _ So).
+    - rewrite (U2 0%nat) by lia. rewrite (all_dep_nth f 0 Ad F3) by lia. reflexivity.
+    - rewrite (U2 1%nat) by lia. rewrite (all_dep_nth f 1 Ad F3) by lia. reflexivity. }
+  assert (Fit : outcome_fits f out = true).
+  { unfold outcome_fits. rewrite Hl, D1, F1, Nat.eqb_refl, Hhold. cbn [andb].
+    apply andb_true_iff. split; [|apply zlist_eqb_eq; exact Hz].
+    apply forallb_forall. intros r Hin. rewrite Forall_forall in Hr. apply Nat.eqb_eq. rewrite F3. apply Hr. exact Hin. }
+  subst h. rewrite F2, Fit. cbn [andb].
+  intros i Hi. cbn [f_wd f_hold l_acc]. split.
+  - intros _. split; [reflexivity|]. intro x. rewrite (U3 i x Hi), (all_dep_nth f i Ad F3 Hi). reflexivity.
+  - intro W. rewrite (U1 i Hi) in W. discriminate.
+Qed.
+
+Lemma is_concluded_true D id : is_concluded D id = true <-> exists d, bfind D id = Some d /\ d_phase d = DConcluded.
+Proof.
+  unfold is_concluded. destruct (bfind D id) as [d|]; split.
+  - intro H. exists d. split; [reflexivity|]. unfold dphase_eqb in H. apply N.eqb_eq in H.
+    destruct (d_phase d); cbn in H; try discriminate; reflexivity.
+  - intros (d' & E & P). injection E as <-. rewrite P. reflexivity.
+  - discriminate.
+  - intros (d' & E & _). discriminate.
+Qed.
+
+Lemma fund_inv_at_ext st L1 L2 acc0 :
+  l_funds L1 = l_funds L2 -> l_acc L1 = l_acc L2 -> l_disp L1 = l_disp L2 ->
+  fund_inv_at st L1 acc0 -> fund_inv_at st L2 acc0.
+Proof.
+  intros Ef Ea Ed. unfold fund_inv_at, unsettled_inv, paid_inv. rewrite Ef, Ea, Ed. auto.
+Qed.
+
+(* only the dispute table changes, by an operation that leaves concluded entries alone *)
+Lemma fund_inv_disp st L acc0 o :
+  fund_inv_at st L acc0 -> tree_concluded (l_disp L) (rootid st) ->
+  (forall p a b c e, o <> LProgress p a b c e) ->
+  l_funds (fst (step L o)) = l_funds L -> l_acc (fst (step L o)) = l_acc L ->
+  fund_inv_at st (fst (step L o)) acc0.
+Proof.
+  intros FI Ht Np Ef Ea. unfold fund_inv_at in *. rewrite Ef.
+  destruct (bfind (l_funds L) (rootid st)) as [f|]; [|rewrite Ea; exact FI].
+  destruct FI as (F1 & F2 & F3 & FU & FS). split; [exact F1|]. split; [exact F2|]. split; [exact F3|]. split.
+  - intro Sf. destruct (FU Sf) as (U1 & U2 & U3). unfold unsettled_inv. rewrite Ea. auto.
+  - intro Sf. destruct (FS Sf) as (Hcon & Hp).
+    destruct (proj1 (is_concluded_true _ _) Hcon) as (d & Hd & Hc). split.
+    + destruct (concluded_stays L o _ d Hd Hc Np) as (d' & Hd' & _ & Hc'). apply is_concluded_true. eauto.
+    + intro Ad. destruct (Hp Ad) as (out & Ho & P).
+      exists out. split; [rewrite (ledger_outcome_stable L o _ d Hd Hc Ht Np); exact Ho|].
+      unfold paid_inv. rewrite Ea. exact P.
+Qed.
+
+Lemma fund_inv_ledger st L acc0 o :
+  static_ok st -> fund_inv_at st L acc0 -> disp_ok_at st (l_clock L) (l_disp L) -> op_good st o -> op_shape st o ->
+  tree_concluded (l_disp L) (rootid st) ->
+  fund_inv_at st (fst (step L o)) acc0.
+Proof.
+  intros So FI Hdo Hg Hs Ht.
+  pose proof (disp_ok_ledger st L o Hdo Hg) as Hdo'.
+  destruct o; cbn [op_shape] in Hs.
+  - (* deposit *)
+    destruct Hs as (-> & -> & Hi & -> & ->). apply (fund_inv_deposit st L acc0 idx So FI Hi).
+  - (* register *)
+    destruct (register_clock L p t subs) as (_ & Ef & Ea). apply fund_inv_disp; auto. discriminate.
+  - contradiction.
+  - (* conclude *)
+    subst p. destruct (conclude_step' L (s_root st) s subs) as [->|[evs E]]; [exact FI|].
+    destruct (conclude_step _ _ _ _ _ _ E) as (_ & Hid & D & out & Hc & HD & HA & HC & HF).
+    fold (rootid st) in Hid, HF.
+    destruct (is_concluded (l_disp L) (rootid st)) eqn:Was.
+    + apply fund_inv_disp; auto. discriminate.
+    + destruct (conclude_rec_spec _ _ _ _ _ _ _ _ Hc) as (_ & _ & (d & Ed & Sd & Pd) & _ & Hout).
+      rewrite Hid in Ed. rewrite HD in Hdo'. destruct (Hdo' _ _ Ed) as (_ & _ & Eg). unfold entry_good in Eg.
+      rewrite Sd, Hid, bytes_eqb_refl in Eg. destruct Eg as (_ & Hok & _ & Hp & Hsum & Has & Hnr).
+      destruct (state_ok_rows _ _ Hok) as (Hrows & Hlen). rewrite Hp, (so_parts _ So) in Hrows.
+      destruct (outcome_rec_dims _ _ _ _ 2%nat Hout Hrows) as (Orows & Olen).
+      apply (fund_inv_at_ext st (mkL (l_clock L) (l_acc L) (set_outcome (l_funds L) (rootid st) out) D)); auto.
+      apply fund_inv_settle; auto.
+      * apply is_concluded_true. eauto.
+      * rewrite <- Hid. apply (conclude_outcome_ledger _ _ _ _ _ _ _ Hc).
+        intros l dl Hl Hdl. destruct (Hdo' _ _ Hdl) as (Hk & _ & Egl). unfold entry_good in Egl.
+        rewrite Hk in Egl. destruct (bytes_eqb (sa_id l) (rootid st)) eqn:Er.
+        -- apply bytes_eqb_eq in Er. exfalso. eapply Hnr; eauto.
+        -- apply Egl.
+      * rewrite (outcome_rec_sums _ _ _ _ Hout). exact Hsum.
+      * rewrite Olen, Hlen, Has. reflexivity.
+  - (* conclude final *)
+    subst p. destruct (concludefinal_step L (s_root st) t) as [->|H]; [exact FI|]. cbv zeta in H.
+    destruct H as (_ & Hok & _ & Hl0 & _ & Hnc & HL).
+    unfold op_good, entry_good in Hg. destruct Hg as (Hid & _ & _ & Hrt). fold (rootid st) in Hid, HL, Hnc.
+    rewrite Hid, bytes_eqb_refl in Hrt. destruct Hrt as (_ & Hsum & Has & _).
+    destruct (state_ok_rows _ _ Hok) as (Hrows & Hlen). rewrite (so_parts _ So) in Hrows.
+    rewrite HL. apply fund_inv_settle; auto.
+    + destruct (bfind (l_disp L) (rootid st)) as [d|] eqn:Ed.
+      * unfold is_concluded. rewrite Ed. unfold dphase_eqb. destruct (d_phase d); try reflexivity. contradiction.
+      * unfold is_concluded. rewrite Ed. reflexivity.
+    + apply is_concluded_true. eexists. split; [apply bfind_bput_same|reflexivity].
+    + unfold ledger_outcome. rewrite bfind_bput_same. cbn [d_state]. unfold flat_outcome. rewrite Hl0. reflexivity.
+    + rewrite <- Hsum. unfold alloc_sum. rewrite Hl0. reflexivity.
+    + rewrite Hlen, Has. reflexivity.
+  - (* withdraw *)
+    destruct Hs as (-> & Hi & ->). apply (fund_inv_withdraw st L acc0 idx signer So FI Hi).
+  - rewrite tick_step. eapply fund_inv_at_ext; [| | |exact FI]; reflexivity.
+Qed.
+
+(* ================= the global invariant of all runs ================= *)
+Definition pidx (k : N) : nat := if k =? 0 then 0%nat else 1%nat.
+Definition wd_flag_inv (st : sstate) : Prop :=
+  forall k, pt_wd (get_party st k) = true ->
+    exists f, bfind (l_funds (s_L st)) (rootid st) = Some f /\ f_settled f = true /\ nth (pidx k) (f_wd f) true = true.
+
+Record ginv (st : sstate) (acc0 : accounts) : Prop := mkG {
+  g_ok0 : nodes_ok st 0; g_ok1 : nodes_ok st 1; g_disp : disp_ok st;
+  g_tree : tree_concluded (l_disp (s_L st)) (rootid st);
+  g_static : static_ok st; g_fund : fund_inv st acc0; g_wd : wd_flag_inv st;
+  g_set : forall k, pt_concl (get_party st k) = true -> settled_on st k }.
+
+Lemma static_ok_static st st' : same_static st' st -> static_ok st -> static_ok st'.
+Proof. intros (Hr & Ha & Hg & Hc) [A B C D E]. constructor; rewrite ?Hr, ?Ha, ?Hg, ?Hc; assumption. Qed.
+
+Lemma wd_flag_step st e st' : wd_flag_inv st -> step_spec st e st' -> wd_flag_inv st'.
+Proof.
+  intros Hw H k Hk.
+  assert (Hr : rootid st' = rootid st) by (unfold rootid; destruct (step_static _ _ _ H) as (-> & _); reflexivity).
+  rewrite Hr, (step_ledger _ _ _ H).
+  assert (Old : pt_wd (get_party st k) = true ->
+     exists f, bfind (l_funds (match step_op st e with Some o => fst (step (s_L st) o) | None => s_L st end)) (rootid st) = Some f
+               /\ f_settled f = true /\ nth (pidx k) (f_wd f) true = true).
+  { intro X. destruct (Hw k X) as (f & Ef & Sf & Wf). destruct (step_op st e) as [o|]; [|eauto].
+    apply (L_withdrawn_stays _ o _ _ _ Ef Sf Wf). }
+  destruct e; cbn [step_spec] in H.
+  - destruct H as (_ & _ & _ & _ & _ & _ & _ & _ & _ & ->). apply Old.
+    destruct (Bool.bool_dec (side i) (side k)) as [S|S];
+      [rewrite (get_set_side _ _ _ _ S) in Hk; cbn [upd_node pt_wd] in Hk; rewrite <- (get_party_side st i k S); exact Hk
+      |rewrite (get_set_other _ _ _ _ S) in Hk; exact Hk].
+  - destruct H as (_ & n & cur & rest & _ & _ & _ & _ & _ & _ & ->). apply Old.
+    destruct (Bool.bool_dec (side i) (side k)) as [S|S];
+      [rewrite (get_set_side _ _ _ _ S) in Hk; cbn [upd_node pt_wd] in Hk; rewrite <- (get_party_side st i k S); exact Hk
+      |rewrite (get_set_other _ _ _ _ S) in Hk; exact Hk].
+  - destruct H as (_ & n & _ & ->). apply Old.
+    destruct (Bool.bool_dec (side i) (side k)) as [S|S];
+      [rewrite (get_set_side _ _ _ _ S) in Hk; cbn [upd_node pt_wd] in Hk; rewrite <- (get_party_side st i k S); exact Hk
+      |rewrite (get_set_other _ _ _ _ S) in Hk; exact Hk].
+  - destruct H as (_ & ->). apply Old. exact Hk.
+  - destruct H as (_ & _ & _ & ->). apply Old. exact Hk.
+  - destruct H as (_ & tr & _ & _ & ->). apply Old. exact Hk.
+  - destruct H as (_ & tr & _ & _ & ->). apply Old. destruct (is_ok _); [|exact Hk].
+    destruct (flags_raise (after st (conclude_op st tr)) i true false k) as [_ Fw]. rewrite Fw in Hk.
+    cbn [andb] in Hk. rewrite orb_false_r in Hk. exact Hk.
+  - destruct H as (Hi & _ & ->). cbn [step_op]. destruct (is_ok (result st (withdraw_op st i))) eqn:Eok; [|apply Old; exact Hk].
+    destruct (flags_raise (after st (withdraw_op st i)) i false true k) as [_ Fw]. rewrite Fw in Hk.
+    apply orb_true_iff in Hk as [Hk|Hk]; [apply Old; exact Hk|].
+    cbn [andb] in Hk. apply Bool.eqb_prop in Hk.
+    destruct (is_ok_step _ _ Eok) as [evs Hres]. unfold withdraw_op in Hres.
+    destruct (L_payout_withdraw _ _ _ _ _ _ _ Hres) as (f & Ef & Sf & _ & Hlt & _ & _ & Ef' & _).
+    fold (rootid st) in Ef, Ef'. unfold withdraw_op. rewrite Ef'. eexists. split; [reflexivity|].
+    cbn [f_settled f_wd]. split; [reflexivity|].
+    assert (Epi : pidx k = N.to_nat i).
+    { unfold pidx, side in *. destruct (k =? 0) eqn:Ek.
+      - destruct (i =? 0) eqn:Ei0; [apply N.eqb_eq in Ei0; subst; reflexivity|discriminate].
+      - destruct (i =? 0) eqn:Ei0; [discriminate|]. apply N.eqb_neq in Ei0. lia. }
+    rewrite Epi. cbn [step_res] in Hres. pose proof Ef as Ef0. unfold rootid in Ef0. rewrite Ef0 in Hres. guards. split_and.
+    match goal with X : (length (f_wd f) =? _)%nat = true |- _ => apply Nat.eqb_eq in X; rename X into Lw end.
+    rewrite (nth_set_nth (N.to_nat i) (N.to_nat i) true true) by lia. rewrite Nat.eqb_refl. reflexivity.
+  - destruct H as (_ & _ & _ & ->). apply Old. exact Hk.
+  - subst st'. apply Old. exact Hk.
+  - destruct H as (_ & _ & ->). apply Old. exact Hk.
+  - destruct H as (_ & ->). apply Old. exact Hk.
+  - destruct H as (_ & ->). apply Old. exact Hk.
+Qed.
+
+Lemma fund_inv_step st e st' acc0 :
+  static_ok st -> fund_inv st acc0 -> nodes_ok st 0 -> nodes_ok st 1 -> disp_ok st ->
+  tree_concluded (l_disp (s_L st)) (rootid st) -> step_spec st e st' -> fund_inv st' acc0.
+Proof.
+  intros So FI Ok0 Ok1 Hdo Ht H. unfold fund_inv. rewrite (step_ledger _ _ _ H).
+  apply (fund_inv_at_static _ _ _ _ (step_static _ _ _ H)).
+  destruct (step_op st e) as [o|] eqn:Eo; [|exact FI].
+  destruct (step_presented _ _ _ H Ok0 Ok1 _ Eo) as (k & Okk & Hp).
+  apply fund_inv_ledger; auto.
+  - eapply presented_good; eauto. eapply step_op_not_progress; eauto.
+  - eapply step_op_shape; eauto.
+Qed.
+
+Lemma ginv_step st e st' r acc0 : ginv st acc0 -> sstep st e = Some (st', r) -> ginv st' acc0.
+Proof.
+  intros [Ok0 Ok1 Hd Ht So FI Hw Hs] H.
+  assert (I3 : inv03 st) by (constructor; assumption).
+  destruct (inv03_step _ _ _ _ I3 H) as [Ok0' Ok1' Hs'].
+  apply sstep_spec in H. constructor; auto.
+  - eapply disp_ok_step; eauto.
+  - eapply tree_concluded_sstep; eauto.
+  - eapply static_ok_static; [eapply step_static; eauto|exact So].
+  - eapply fund_inv_step; eauto.
+  - eapply wd_flag_step; eauto.
+Qed.
+
+Lemma ginv_run acc0 : forall es st st', ginv st acc0 -> srun st es = Some st' -> ginv st' acc0.
+Proof.
+  induction es as [|e es IH]; intros st st' Hi Hr; cbn [srun] in Hr.
+  - injection Hr as <-. exact Hi.
+  - destruct (sstep st e) as [[st1 r]|] eqn:E; [|discriminate]. eapply IH; [eapply ginv_step; eauto|exact Hr].
+Qed.
+
+Lemma ginv_init rootp assets agree accts acc :
+  static_ok (sinit rootp assets agree accts acc) -> ginv (sinit rootp assets agree accts acc) acc.
+Proof.
+  intro So. constructor; auto.
+  - intros c n H. cbn in H. discriminate H.
+  - intros c n H. cbn in H. discriminate H.
+  - intros id d H. cbn in H. discriminate H.
+  - intros d H. cbn in H. discriminate H.
+  - unfold fund_inv, fund_inv_at. cbn. auto.
+  - intros k H. unfold get_party, sinit in H. destruct (k =? 0); cbn in H; discriminate H.
+  - intros k H. unfold get_party, sinit in H. destruct (k =? 0); cbn in H; discriminate H.
+Qed.
+
+(* ================= from the concluded tree on the ledger to the participants' newest trees ================= *)
+Lemma collect_build {A B} (f : A -> option B) l : (forall x, In x l -> exists y, f x = Some y) -> exists ys, collect f l = Some ys.
+Proof.
+  induction l as [|x l IH]; intro H; cbn [collect]; [eauto|].
+  destruct (H x (or_introl eq_refl)) as [y Ey]. rewrite Ey.
+  destruct IH as [ys Eys]; [intros z Hz; apply H; right; exact Hz|]. rewrite Eys. eauto.
+Qed.
+
+Lemma tree_by_build nodes root rn rs :
+  bfind nodes root = Some rn -> newest rn = Some rs ->
+  (forall l, In l (al_locked (st_alloc rs)) -> exists n t, bfind nodes (sa_id l) = Some n /\ newest n = Some t) ->
+  exists subs, tree_by newest nodes root = Some (rs, subs).
+Proof.
+  intros Hr Hn Hl. unfold tree_by. rewrite Hr, Hn.
+  destruct (collect_build (fun l => match bfind nodes (sa_id l) with
+                                    | Some n => option_map (fun t => (n_params n, t)) (newest n)
+                                    | None => None end) (al_locked (st_alloc rs))) as [subs Es].
+  { intros l Hin. destruct (Hl l Hin) as (n & t & Hf & Ht). rewrite Hf, Ht. cbn [option_map]. eauto. }
+  rewrite Es. eauto.
+Qed.
+
+Lemma Forall2_length {A B} (P : A -> B -> Prop) l m : Forall2 P l m -> length l = length m.
+Proof. intro F. induction F; cbn [length]; auto. Qed.
+
+(* the outcome of a participant's newest tree is the outcome of the registered tree when the registered
+   states are the participant's newest ones *)
+Lemma tree_outcome_ledger st k tr d :
+  nodes_ok st k -> newest_tree st k = Some tr ->
+  bfind (l_disp (s_L st)) (rootid st) = Some d -> d_state d = fst tr ->
+  (forall l, In l (al_locked (st_alloc (fst tr))) ->
+     exists n dl, bfind (pt_nodes (get_party st k)) (sa_id l) = Some n
+       /\ bfind (l_disp (s_L st)) (sa_id l) = Some dl /\ newest n = Some (d_state dl)) ->
+  tree_outcome tr = ledger_outcome (l_disp (s_L st)) (rootid st).
+Proof.
+  intros Ok Htr Hd Sd Hl. pose proof (tree_by_newest _ _ _ Htr) as Sh.
+  pose proof Sh as [[rn [Hrn Hn]] F].
+  unfold tree_outcome, ledger_outcome. rewrite Hd, Sd.
+  assert (Agree : forall l, In l (al_locked (st_alloc (fst tr))) ->
+            find_st (map snd (snd tr)) (sa_id l) = reg_state (l_disp (s_L st)) (sa_id l)).
+  { intros l Hin. destruct (tree_find _ _ _ Ok Sh _ Hin) as (n & t & Hfn & Hnt & Hft).
+    destruct (Hl _ Hin) as (n' & dl & Hfn' & Hdl & Hn'). rewrite Hfn in Hfn'. injection Hfn' as <-.
+    unfold reg_state. rewrite Hdl, Hft. cbn [option_map]. congruence. }
+  destruct (al_locked (st_alloc (fst tr))) as [|l0 ls] eqn:El.
+  - apply outcome_rec_nolock_flat. exact El.
+  - pose proof (Forall2_length _ _ _ F) as Len.
+    destruct (snd tr) as [|e subs] eqn:Es; [cbn [length] in Len; discriminate|]. cbn [length].
+    rewrite outcome_rec_is_flat.
+    + apply flat_outcome_ext. rewrite El. exact Agree.
+    + rewrite El. intros l sub Hin Hfs.
+      destruct (tree_find _ _ _ Ok Sh l) as (n & t & Hfn & Hnt & Hft); [rewrite El; exact Hin|].
+      rewrite Es in Hft. rewrite Hft in Hfs. injection Hfs as <-.
+      pose proof (newest_In _ _ Hn) as Hinr.
+      destruct (Ok _ _ Hrn) as (_ & _ & _ & _ & _ & K6). unfold rootid in K6 at 1. rewrite bytes_eqb_refl in K6.
+      destruct K6 as (_ & _ & _ & K8).
+      assert (Nr : sa_id l <> rootid st) by (eapply K8; [exact Hinr|rewrite El; exact Hin]).
+      destruct (Ok _ _ Hfn) as (_ & _ & _ & _ & _ & K6'). apply bytes_eqb_false in Nr. rewrite Nr in K6'.
+      apply K6'. apply newest_In. exact Hnt.
+Qed.
+
+(* conservation along every run *)
+Lemma run_total a : forall es st st', srun st es = Some st' -> ledger_total a (s_L st') = ledger_total a (s_L st).
+Proof.
+  induction es as [|e es IH]; intros st st' Hr; cbn [srun] in Hr.
+  - injection Hr as <-. reflexivity.
+  - destruct (sstep st e) as [[st1 r]|] eqn:E; [|discriminate]. rewrite (IH _ _ Hr).
+    apply sstep_spec in E. rewrite (step_ledger _ _ _ E). destruct (step_op st e); [apply step_conserves|reflexivity].
+Qed.
+
+Lemma wd_concl_step st e st' :
+  (forall k, pt_wd (get_party st k) = true -> pt_concl (get_party st k) = true) -> step_spec st e st' ->
+  forall k, pt_wd (get_party st' k) = true -> pt_concl (get_party st' k) = true.
+Proof.
+  intros Hw H k Hk.
+  assert (Loc : forall i c n, pt_wd (get_party (set_party st i (upd_node (get_party st i) c n)) k) = true ->
+                 pt_concl (get_party (set_party st i (upd_node (get_party st i) c n)) k) = true).
+  { intros i c n X. destruct (Bool.bool_dec (side i) (side k)) as [S|S].
+    - rewrite (get_set_side _ _ _ _ S) in *. cbn [upd_node pt_wd pt_concl] in *. rewrite (get_party_side st i k S) in *. auto.
+    - rewrite (get_set_other _ _ _ _ S) in *. auto. }
+  destruct e; cbn [step_spec] in H.
+  - destruct H as (_ & _ & _ & _ & _ & _ & _ & _ & _ & ->). apply Loc. exact Hk.
+  - destruct H as (_ & n & cur & rest & _ & _ & _ & _ & _ & _ & ->). apply Loc. exact Hk.
+  - destruct H as (_ & n & _ & ->). apply Loc. exact Hk.
+  - destruct H as (_ & ->). apply Hw. exact Hk.
+  - destruct H as (_ & _ & _ & ->). apply Hw. exact Hk.
+  - destruct H as (_ & tr & _ & _ & ->). apply Hw. exact Hk.
+  - destruct H as (_ & tr & _ & _ & ->). destruct (is_ok _); [|apply Hw; exact Hk].
+    destruct (flags_raise (after st (conclude_op st tr)) i true false k) as [Fc Fw]. rewrite Fw in Hk. rewrite Fc.
+    cbn [andb] in Hk. rewrite orb_false_r in Hk. apply orb_true_iff. left. apply Hw. exact Hk.
+  - destruct H as (_ & Hc & ->). destruct (is_ok _); [|apply Hw; exact Hk].
+    destruct (flags_raise (after st (withdraw_op st i)) i false true k) as [Fc Fw]. rewrite Fw in Hk. rewrite Fc.
+    cbn [andb]. rewrite orb_false_r. apply orb_true_iff in Hk as [Hk|Hk]; [apply Hw; exact Hk|].
+    cbn [andb] in Hk. apply Bool.eqb_prop in Hk. change (pt_concl (get_party st k) = true).
+    rewrite <- (get_party_side st i k Hk). exact Hc.
+  - destruct H as (_ & _ & _ & ->). apply Hw. exact Hk.
+  - subst st'. apply Hw. exact Hk.
+  - destruct H as (_ & _ & ->). apply Hw. exact Hk.
+  - destruct H as (_ & ->). apply Hw. exact Hk.
+  - destruct H as (_ & ->). apply Hw. exact Hk.
+Qed.
+Lemma wd_concl_run : forall es st st',
+  (forall k, pt_wd (get_party st k) = true -> pt_concl (get_party st k) = true) -> srun st es = Some st' ->
+  forall k, pt_wd (get_party st' k) = true -> pt_concl (get_party st' k) = true.
+Proof.
+  induction es as [|e es IH]; intros st st' Hi Hr; cbn [srun] in Hr.
+  - injection Hr as <-. exact Hi.
+  - destruct (sstep st e) as [[st1 r]|] eqn:E; [|discriminate]. apply sstep_spec in E.
+    eapply IH; [eapply wd_concl_step; eauto|exact Hr].
+Qed.
+
+Lemma funded_all_dep st f : funded st = true -> bfind (l_funds (s_L st)) (rootid st) = Some f -> all_dep f = true.
+Proof. unfold funded, all_dep. intros H E. rewrite E in H. apply andb_true_iff in H as [H _]. exact H. Qed.
+
+Lemma subs_states (nodes : bmap node) (D : disputes) (d0 : state) : forall ls (subs : list (lparams * state)),
+  Forall2 (fun l e => exists n, bfind nodes (sa_id l) = Some n /\ fst e = n_params n /\ newest n = Some (snd e)) ls subs ->
+  (forall l, In l ls -> exists n dl, bfind nodes (sa_id l) = Some n /\ bfind D (sa_id l) = Some dl /\ newest n = Some (d_state dl)) ->
+  map snd subs = map (fun l => match reg_state D (sa_id l) with Some s => s | None => d0 end) ls.
+Proof.
+  intros ls subs F. induction F as [|l e ls subs (n & Hfn & _ & Hne) F IH]; intro Hl; [reflexivity|].
+  cbn [map]. f_equal.
+  - destruct (Hl l (or_introl eq_refl)) as (n' & dl & Hfn' & Hdl & Hnl).
+    rewrite Hfn in Hfn'. injection Hfn' as <-. unfold reg_state. rewrite Hdl. cbn [option_map]. congruence.
+  - apply IH. intros l' Hin. apply Hl. right. exact Hin.
+Qed.
+
+(* a participant that is settled on the ledger's tree holds it as its newest tree, with the ledger's outcome *)
+Lemma settled_tree st k :
+  nodes_ok st k -> settled_on st k ->
+  exists tr d, newest_tree st k = Some tr /\ bfind (l_disp (s_L st)) (rootid st) = Some d /\ fst tr = d_state d
+    /\ map snd (snd tr) = map (fun l => match reg_state (l_disp (s_L st)) (sa_id l) with Some s => s | None => d_state d end)
+                              (al_locked (st_alloc (d_state d)))
+    /\ tree_outcome tr = ledger_outcome (l_disp (s_L st)) (rootid st).
+Proof.
+  intros Ok (rn & d & Hrn & _ & Hd & _ & Hn & Hl).
+  destruct (tree_by_build _ _ _ _ Hrn Hn) as [subs Htr].
+  { intros l Hin. destruct (Hl _ Hin) as (n & dl & Hfn & _ & _ & _ & Hnl). eauto. }
+  exists (d_state d, subs), d. split; [exact Htr|]. split; [exact Hd|]. split; [reflexivity|]. split.
+  - destruct (tree_by_newest _ _ _ Htr) as [_ F]. cbn [fst snd] in F |- *.
+    apply (subs_states _ _ _ _ _ F). intros l Hin.
+    destruct (Hl _ Hin) as (n & dl & Hfn & _ & Hdl & _ & Hnl). eauto.
+  - apply (tree_outcome_ledger st k _ d Ok Htr Hd eq_refl). cbn [fst].
+    intros l Hin. destruct (Hl _ Hin) as (n & dl & Hfn & _ & Hdl & _ & Hnl). eauto.
+Qed.
+
+Lemma init_total a acc : ledger_total a (init_ledger acc) = acc_total a acc.
+Proof. unfold ledger_total, init_ledger. cbn [l_acc l_funds]. unfold funds_total. cbn [map]. rewrite zsum_nil. lia. Qed.
+
+(* ================= C03 ================= *)
+Theorem honest_settlement rootp assets agree accts acc0 es st :
+  static_ok (sinit rootp assets agree accts acc0) ->
+  srun (sinit rootp assets agree accts acc0) es = Some st ->
+  funded st = true -> pt_wd (s_p0 st) = true -> pt_wd (s_p1 st) = true ->
+  exists tr0 tr1 out,
+    newest_tree st 0 = Some tr0 /\ newest_tree st 1 = Some tr1
+    /\ fst tr0 = fst tr1 /\ map snd (snd tr0) = map snd (snd tr1)
+    /\ tree_outcome tr0 = ROk out
+    /\ (forall i x, (i < 2)%nat ->
+          acc_get (l_acc (s_L st)) (acct st i, x) = (acc_get acc0 (acct st i, x) - dcol st i x + ocol st out i x)%Z)
+    /\ (forall x, ledger_total x (s_L st) = acc_total x acc0)
+    /\ exists f, bfind (l_funds (s_L st)) (rootid st) = Some f /\ f_settled f = true
+         /\ forall i, (i < 2)%nat -> col (f_hold f) i = zeros (f_hold f).
+Proof.
+  intros So Hr Fu W0 W1.
+  pose proof (ginv_run acc0 es _ _ (ginv_init _ _ _ _ _ So) Hr) as [Ok0 Ok1 Hd Ht So' FI Hw Hs].
+  assert (Wc : forall k, pt_wd (get_party st k) = true -> pt_concl (get_party st k) = true).
+  { apply (wd_concl_run es (sinit rootp assets agree accts acc0) st); [|exact Hr].
+    intros k X. unfold get_party, sinit in X. destruct (k =? 0); cbn in X; discriminate X. }
+  destruct (settled_tree st 0 Ok0 (Hs 0 (Wc 0 W0))) as (tr0 & d & T0 & Hd0 & F0 & M0 & O0).
+  destruct (settled_tree st 1 Ok1 (Hs 1 (Wc 1 W1))) as (tr1 & d' & T1 & Hd1 & F1 & M1 & O1).
+  rewrite Hd0 in Hd1. injection Hd1 as <-.
+  destruct (Hw 0 W0) as (f & Ef & Sf & Wf0). destruct (Hw 1 W1) as (f' & Ef' & _ & Wf1).
+  rewrite Ef in Ef'. injection Ef' as <-. cbn [pidx N.eqb] in Wf0, Wf1.
+  unfold fund_inv, fund_inv_at in FI. rewrite Ef in FI. destruct FI as (_ & _ & _ & _ & FS).
+  destruct (FS Sf) as (_ & Hp). destruct (Hp (funded_all_dep _ _ Fu Ef)) as (out & Ho & P).
+  exists tr0, tr1, out. split; [exact T0|]. split; [exact T1|]. split; [congruence|]. split; [congruence|].
+  split; [rewrite O0; exact Ho|]. split.
+  - intros i x Hi. destruct (P i Hi) as (_ & P2). destruct (lt2 _ Hi) as [->| ->]; [apply (P2 Wf0)|apply (P2 Wf1)].
+  - split; [intro x; rewrite (run_total x es _ _ Hr); apply init_total|].
+    exists f. split; [exact Ef|]. split; [exact Sf|].
+    intros i Hi. destruct (P i Hi) as (_ & P2). destruct (lt2 _ Hi) as [->| ->]; [apply (P2 Wf0)|apply (P2 Wf1)].
+Qed.
+
+(* ================= C04, the payout ================= *)
+Lemma get_party_pidx st h : h < 2 -> get_party st h = (if h =? 0 then s_p0 st else s_p1 st).
+Proof. reflexivity. Qed.
+
+Theorem honest_payout rootp assets agree accts acc0 h es st :
+  static_ok (sinit rootp assets agree accts acc0) ->
+  adversarial_run h es = true -> srun (sinit rootp assets agree accts acc0) es = Some st ->
+  funded st = true -> pt_wd (get_party st h) = true ->
+  exists tr out d,
+    newest_tree st h = Some tr /\ tree_outcome tr = ROk out
+    /\ bfind (l_disp (s_L st)) (rootid st) = Some d /\ d_phase d = DConcluded /\ d_state d = fst tr
+    /\ forall x, acc_get (l_acc (s_L st)) (acct st (pidx h), x)
+                 = (acc_get acc0 (acct st (pidx h), x) - dcol st (pidx h) x + ocol st out (pidx h) x)%Z.
+Proof.
+  intros So Ha Hr Fu W.
+  pose proof (ginv_run acc0 es _ _ (ginv_init _ _ _ _ _ So) Hr) as [Ok0 Ok1 Hd Ht So' FI Hw Hs].
+  pose proof (nodes_ok_any st h Ok0 Ok1) as Okh.
+  destruct (Hw h W) as (f & Ef & Sf & Wf).
+  unfold fund_inv, fund_inv_at in FI. rewrite Ef in FI. destruct FI as (_ & _ & _ & _ & FS).
+  destruct (FS Sf) as (Hcon & Hp). destruct (Hp (funded_all_dep _ _ Fu Ef)) as (out & Ho & P).
+  destruct (proj1 (is_concluded_true _ _) Hcon) as (d & Hdd & Hc).
+  destruct (concluded_is_newest _ _ _ _ _ h es st Ha Hr d Hdd Hc) as (rn & Hrn & Hn & _ & Hl).
+  destruct (tree_by_build _ _ _ _ Hrn Hn) as [subs Htr].
+  { intros l Hin. destruct (Hl _ Hin) as (n & dl & Hfn & _ & _ & Hnl & _). eauto. }
+  exists (d_state d, subs), out, d. split; [exact Htr|]. split.
+  - rewrite (tree_outcome_ledger st h _ d Okh Htr Hdd eq_refl); [exact Ho|]. cbn [fst].
+    intros l Hin. destruct (Hl _ Hin) as (n & dl & Hfn & Hdl & _ & Hnl & _). eauto.
+  - split; [exact Hdd|]. split; [exact Hc|]. split; [reflexivity|].
+    assert (Hi : (pidx h < 2)%nat) by (unfold pidx; destruct (h =? 0); lia).
+    destruct (P _ Hi) as (_ & P2). apply (P2 Wf).
+Qed.
+
+(* without locked sub-channels the outcome is the balance matrix of the state *)
+Lemma tree_outcome_nolock tr out : tree_outcome tr = ROk out -> al_locked (st_alloc (fst tr)) = [] ->
+  out = al_bals (st_alloc (fst tr)).
+Proof. unfold tree_outcome. intros H E. rewrite (outcome_rec_flat _ _ _ E) in H. injection H as <-. reflexivity. Qed.
+
+(* the explicit content of the urgency assumption: a tick is only taken when, for each participant and each
+   of its channels that matters and whose refutation window the tick closes (or has closed), the newest state
+   is the registered one and the machine is frozen *)
+Theorem tick_needs_urgency st st' r : sstep st STick = Some (st', r) ->
+  forall i c n, i < 2 -> bfind (pt_nodes (get_party st i)) c = Some n -> relevant st i c = true ->
+    window_closing (s_L st) c = true -> settled_business (s_L st) n = true.
+Proof.
+  intros H i c n Hi Hf Hrel Hw. apply sstep_spec in H. cbn [step_spec] in H. destruct H as (Ht & _).
+  unfold tick_ok in Ht. apply andb_true_iff in Ht as [T0 T1].
+  assert (Th : party_tick_ok st i = true).
+  { destruct (i =? 0) eqn:E0.
+    - apply N.eqb_eq in E0. subst i. exact T0.
+    - rewrite <- T1. unfold party_tick_ok, relevant.
+      rewrite (get_party_side st i 1) by (unfold side; rewrite E0; reflexivity). reflexivity. }
+  unfold party_tick_ok in Th. rewrite forallb_forall in Th. specialize (Th _ (bfind_In _ _ _ Hf)).
+  cbn [fst snd] in Th. rewrite Hrel, Hw in Th. exact Th.
 Qed.
